@@ -12,6 +12,26 @@ ORD_ALG = {v: k for k, v in ALG_ORD.items()}
 KTY_ORD = {"none": 0, "ec": 1, "rsa": 2, "okp": 3, "oct": 4}
 
 
+FAMILY = {"HS256": "oct", "HS384": "oct", "HS512": "oct", "RS256": "rsa", "RS384": "rsa", "RS512": "rsa",
+          "PS256": "rsa", "PS384": "rsa", "PS512": "rsa", "ES256": "ec", "ES384": "ec", "ES512": "ec",
+          "ES256K": "ec", "EdDSA": "okp"}
+EC_BITS = {"ES256": 256, "ES256K": 256, "ES384": 384, "ES512": 521}
+HS_MIN = {"HS256": 32, "HS384": 48, "HS512": 64}
+
+
+def usable(key, alg):
+    """may `alg` be evaluated with `key` at all, per the property (family + strength floor)?"""
+    if alg not in FAMILY or FAMILY[alg] != key.kty:
+        return False
+    if key.kind == "oct":
+        return len(key.k) >= HS_MIN[alg]
+    if key.kty == "rsa":
+        return key.bits >= 2048
+    if key.kty == "ec":
+        return key.bits == EC_BITS[alg]
+    return key.bits in (256, 456)
+
+
 def b64u(b):
     return base64.urlsafe_b64encode(b).rstrip(b"=").decode()
 
